@@ -5,6 +5,7 @@
 #include "common.h"
 #include "utf_iterator.h"
 #include <booster/locale/utf.h>
+#include <booster/locale/encoding_utf.h>
 #include <cppcms/encoding.h>
 #include <booster/locale.h>
 #include <memory>
@@ -96,6 +97,41 @@ static std::string run(std::vector<std::string> const &w)
 			}
 		}
 		return w[0]=="full2" ? full : std::to_string(h1)+" "+std::to_string(h2);
+	}
+	if(w.size()==3 && (w[0]=="u2u" || w[0]=="u2w")) {
+		// booster::locale::conv::utf_to_utf (header template, compiled from the working tree) on an exactly sized heap copy
+		namespace conv=booster::locale::conv;
+		std::string a; if(!vh::unhex(w[2],a)) return "bad-op";
+		conv::method_type how=conv::method_type(atoi(w[1].c_str()));
+		heapbuf hb(a);
+		char const *b=hb.p.get();
+		if(w[0]=="u2u") {
+			std::string r1,r2; bool t1=false,t2=false;
+			try { r1=conv::utf_to_utf<char>(b,b+a.size(),how); } catch(conv::conversion_error const &) { t1=true; }
+			try { r2=conv::utf_to_utf<char>(a,how); } catch(conv::conversion_error const &) { t2=true; }
+			if(t1!=t2 || r1!=r2) return "overload-mismatch";
+			return t1 ? std::string("throw") : vh::hex(r1);
+		}
+		std::wstring r;
+		try { r=conv::utf_to_utf<wchar_t>(b,b+a.size(),how); } catch(conv::conversion_error const &) { return "throw"; }
+		if(r.empty()) return "-";
+		std::string o;
+		for(size_t i=0;i<r.size();i++) { if(i) o+=","; o+=std::to_string((unsigned long long)(uint32_t)r[i]); }
+		return o;
+	}
+	if(w.size()==3 && w[0]=="w2u") {
+		namespace conv=booster::locale::conv;
+		conv::method_type how=conv::method_type(atoi(w[1].c_str()));
+		std::vector<wchar_t> in;
+		if(w[2]!="-") {
+			std::istringstream ss(w[2]); std::string t;
+			while(std::getline(ss,t,',')) in.push_back(wchar_t(uint32_t(strtoull(t.c_str(),0,10))));
+		}
+		std::unique_ptr<wchar_t[]> buf(new wchar_t[in.size()?in.size():1]);
+		for(size_t i=0;i<in.size();i++) buf[i]=in[i];
+		std::string r;
+		try { r=conv::utf_to_utf<char>(buf.get(),buf.get()+in.size(),how); } catch(conv::conversion_error const &) { return "throw"; }
+		return vh::hex(r);
 	}
 	if(w.size()==3 && w[0]=="v") {
 		std::string a; if(!vh::unhex(w[2],a)) return "bad-op";
